@@ -460,7 +460,10 @@ Section Programs.
      signature primitive: which key, which kid in the header, which verdict of
      the key checks *)
   Definition jws_op (sign : bool) (kr : keyref) (kid : option str) (alg : string)
-             (allowed : option (list string)) : prog (res pv) :=
+             (allowed : option (list string)) (crypto : option jcls) : prog (res pv) :=
+    (* the verdict of the signature primitive: an oracle, a pure function of the
+       raw key and of the call's own arguments *)
+    let fin (v : pv) : res pv := match crypto with None => Ok v | Some c => Err (EJose c) end in
     let use_check (k : nat) (cont : prog (res pv)) : prog (res pv) :=
       pbindr (getf k (asc "use")) (fun u =>
         match py_truthy_str u with
@@ -483,7 +486,7 @@ Section Programs.
           pbindr (guess_key kr kid true alg) (fun kh =>
             let k := fst kh in
             use_check k (ktype_check k kt (alg_check k
-              (pbindr (get_op_key k "sign") (fun _ => Ret (Ok (snd kh)))))))
+              (pbindr (get_op_key k "sign") (fun _ => Ret (fin (snd kh)))))))
         end)
     else
       pbindr (guess_key kr kid false alg) (fun kh =>
@@ -492,7 +495,7 @@ Section Programs.
           (Act "jws.getalg" (AJwsAlg alg) (fun o =>
              match get_alg alg allowed o with
              | Err e => Ret (Err e)
-             | Ok kt => ktype_check k kt (pbindr (get_op_key k "verify") (fun _ => Ret (Ok (snd kh))))
+             | Ok kt => ktype_check k kt (pbindr (get_op_key k "verify") (fun _ => Ret (fin (snd kh))))
              end))).
 
   (* ---------- API calls ---------- *)
@@ -504,7 +507,8 @@ Section Programs.
   | CNewSet (ks : list nat)
   | CGetByKid (s : nat) (kid : option str)
   | CPick (s : nat) (alg : string)
-  | CJws (sign : bool) (kr : keyref) (kid : option str) (alg : string) (allowed : option (list string)).
+  | CJws (sign : bool) (kr : keyref) (kid : option str) (alg : string) (allowed : option (list string))
+         (crypto : option jcls).
 
   Definition compile (c : call) : prog (res pv) :=
     match c with
@@ -516,7 +520,7 @@ Section Programs.
     | CGetByKid s kid => pbindr (get_by_kid s kid) (fun k => Ret (Ok (PInt (Z.of_nat k))))
     | CPick s alg => pbindr (pick_random s alg)
                        (fun o => Ret (Ok (match o with Some k => PInt (Z.of_nat k) | None => PNone end)))
-    | CJws sg kr kid alg allowed => jws_op sg kr kid alg allowed
+    | CJws sg kr kid alg allowed cr => jws_op sg kr kid alg allowed cr
     end.
 End Programs.
 
